@@ -71,6 +71,15 @@ def _classify(job):
         g = wrap(ctx, g)
     has_seed = "seed" in stack
     x = jnp.asarray(0.5)
+    # history: the same stack of constructs around site-FREE code has been run before (as ordinary programs do all the time,
+    # e.g. jax.nn.relu is a custom_jvp call). The outcome for the placement must not depend on it.
+    try:
+        twin = lambda key, y: 2.0 * y + 1.0
+        for ctx in reversed(stack):
+            twin = wrap(ctx, twin)
+        twin(jax.random.key(3) if has_seed else None, x)
+    except Exception:
+        pass
 
     def call(k):
         # keys are only threaded when some seed consumes them (vmap over keys needs real keys)
